@@ -143,7 +143,7 @@ class BaseIncrementalFeatureImportance(BaseIncrementalExplainer):
     def _normalize_importance_values(importance_values: dict, mode: str = 'sum') -> dict:
         importance_values_list = list(importance_values.values())
         if mode == 'delta':
-            factor = max(importance_values_list) - min(importance_values_list)
+            factor = max(importance_values_list, default=0) - min(importance_values_list, default=0)
         elif mode == 'sum':
             factor = sum(importance_values_list)
         else:
